@@ -713,6 +713,7 @@ class GenUnit:
         self.imports = []  # (qual, home)
         self.assumed = []  # (qual, reason)
         self.raw_ranges = []
+        self.import_ranges = []
         self.norm_counts = {}
         self.trusted_scan = []
 
@@ -783,7 +784,9 @@ def generate(unit, vacuity=False, only=None):
             if hd.opt("ret") and not d.opt("ret"):
                 d2.args.append("ret=" + hd.opt("ret"))
             g = gen_fn(d2, strip, "stub", contract_text=hc.text if hc else "")
+            a = pos
             emit(g.out + "\n")
+            gu.import_ranges.append((a, pos))
             gu.imports.append({"qual": d.args[0], "home": home, "file": g.file, "lines": [g.line_start, g.line_end]})
         elif d.kind == "assume":
             c = d.section("contract")
@@ -793,7 +796,8 @@ def generate(unit, vacuity=False, only=None):
         else:
             raise ExtractError("%s: unknown directive %s" % (d.where, d.kind))
     gu.text = "".join(chunks)
-    gu.trusted_scan = scan_trusted(gu.text)
+    # everything assumed rather than proved; stubs of imported contracts are proved in their home unit
+    gu.trusted_scan = [d for off, d in scan_trusted(gu.text) if not any(a <= off < b for a, b in gu.import_ranges)]
     return gu
 
 
@@ -812,15 +816,25 @@ def scan_trusted(text):
         hm = re.search(r"(?:pub\s+)?(?:fn|struct|enum)\s+([\w:<>,& ]+?)\s*[\(<{]|\[([^\]]+)\]|spec\s+fn\s+(\w+)", tail)
         what = mm.group(1)
         if what.startswith("global"):
-            res.append("global size_of usize == 8 (A-arch)")
+            res.append((mm.start(), "global size_of usize == 8 (A-arch)"))
             continue
         name = ""
         if what == "assume_specification":
-            h2 = re.search(r"\[([^\]]+)\]", tail)
-            name = h2.group(1).strip() if h2 else ""
+            k = tail.find(" [")
+            name = ""
+            if k >= 0:
+                d = 0
+                for j in range(k + 1, len(tail)):
+                    if tail[j] == "[":
+                        d += 1
+                    elif tail[j] == "]":
+                        d -= 1
+                        if d == 0:
+                            name = tail[k + 2 : j].strip()
+                            break
         elif what.startswith("uninterp"):
             name = re.match(r"\s*(\w+)", tail).group(1)
         elif hm:
             name = (hm.group(1) or hm.group(2) or hm.group(3) or "").strip()
-        res.append("%s %s" % (what, name))
+        res.append((mm.start(), "%s %s" % (what, name)))
     return res
